@@ -50,16 +50,39 @@ var base = time.Unix(1_000_000, 0)
 
 type recorder struct {
 	mu  sync.Mutex
-	b   *tv.Batch
-	off bool // the run is over: goroutines that finish during the tear-down record nothing
+	b   *tv.Batch // observable trace (contract level)
+	hb  *tv.Batch // hook-level trace (implementation level): the observable events plus every decision point passed
+	off bool      // the run is over: goroutines that finish during the tear-down record nothing
 }
 
 func (r *recorder) ev(name string, m tv.M) {
 	r.mu.Lock()
 	defer r.mu.Unlock()
-	if !r.off {
-		r.b.Ev(name, m)
+	if r.off {
+		return
 	}
+	if m == nil {
+		m = tv.M{}
+	}
+	if r.hb != nil {
+		h := tv.M{}
+		for k, v := range m {
+			h[k] = v
+		}
+		r.hb.Ev(name, h)
+	}
+	delete(m, "c") // the calling client goroutine is only of interest to the model binding
+	r.b.Ev(name, m)
+}
+
+// hook records a decision point of the limiter (or the slow consumer's gate) the moment its goroutine arrives there.
+func (r *recorder) hook(point string) {
+	r.mu.Lock()
+	defer r.mu.Unlock()
+	if r.off || r.hb == nil {
+		return
+	}
+	r.hb.Ev(point, tv.M{})
 }
 
 func (r *recorder) end() {
@@ -232,15 +255,19 @@ func classifyDeadlock(baseline map[string]bool) string {
 	return "other"
 }
 
-func runSchedule(b *tv.Batch, prog program, seed int64) result {
+func runSchedule(b, hb *tv.Batch, prog program, seed int64) result {
 	rng := rand.New(rand.NewSource(seed))
-	rec := &recorder{b: b}
+	rec := &recorder{b: b, hb: hb}
 	tr := b.Start(tv.M{"i": prog.I, "m": prog.M, "cap": prog.Cap, "prog": prog, "seed": seed})
+	if hb != nil {
+		hb.Start(tv.M{"i": prog.I, "m": prog.M, "cap": prog.Cap, "kind": prog.Consumer, "seed": seed})
+	}
 	baseline := map[string]bool{}
 	for _, g := range goroutines() {
 		baseline[g.id] = true
 	}
 	ctl := sched.New("coal.*", "consumer.take")
+	ctl.OnEvent = func(point string, args []any) { rec.hook(point) }
 	ratelimiting.VerifHook = func(point string, kv ...any) { ctl.Point(point, kv...) }
 	defer func() { ratelimiting.VerifHook = nil }()
 	clk := clocktesting.NewFakeClock(base)
@@ -322,10 +349,10 @@ func runSchedule(b *tv.Batch, prog program, seed int64) result {
 				nextA++
 				n := nextA
 				vmu.Unlock()
-				rec.ev("add_call", tv.M{"n": n})
+				rec.ev("add_call", tv.M{"n": n, "c": ci})
 				c.cur = ctl.Go(fmt.Sprintf("c%d:add", ci), func() {
 					rl.Add()
-					rec.ev("add_ret", tv.M{"n": n})
+					rec.ev("add_ret", tv.M{"n": n, "c": ci})
 				})
 			case "adv":
 				c.next++
@@ -598,6 +625,7 @@ func TestCheck(t *testing.T) {
 	modelCheck(e)
 
 	b := &tv.Batch{}
+	hb := &tv.Batch{}
 	var results []result
 	var progs []program
 	A := func(n int) opSpec { return opSpec{Op: "add", N: n} }
@@ -627,15 +655,15 @@ func TestCheck(t *testing.T) {
 		{I: 2, M: 2, Consumer: "prompt", Clients: [][]opSpec{{A(1), idle(ADV(2)), A(1)}, {after(A(1), 1)}, {after(ADV(2), 1)}}},
 	}
 	nStaged := ev.Pick(6, 50)
-	nRandProg := ev.Pick(75, 800)
+	nRandProg := ev.Pick(65, 800)
 	nSchedPer := ev.Pick(3, 5)
-	nSeq := ev.Pick(40, 500)
+	nSeq := ev.Pick(35, 500)
 	inconcl, nSeqRun := 0, 0
 	run := func(p program, seed int64) {
 		if p.Prefix == nil {
 			p.Prefix = []string{}
 		}
-		r := runSchedule(b, p, seed)
+		r := runSchedule(b, hb, p, seed)
 		results = append(results, r)
 		progs = append(progs, p)
 		if r.err != nil {
@@ -705,7 +733,60 @@ func TestCheck(t *testing.T) {
 		}
 		e.Violation(key, what, tv.M{"program": progs[i], "schedule": results[i].schedule, "trace": jb.TraceStrings(r.Trace), "at": r.At})
 	}
+	// binding of the implementation-shaped model: hook-level traces must be behaviours of Coalescing.tla (drift, not verdict)
+	jhb := &tv.Batch{}
+	for _, r := range results {
+		if r.err == nil {
+			jhb.AppendTrace(hb.Trace(r.trace))
+		}
+	}
+	hmissing, hres := tv.ValidateDoneChunked(tlc.Opts{Dir: "Coalescing", Module: "TraceCoalImpl", Config: "TraceCoalImpl.cfg", Workers: 16, Timeout: ev.Pick(6*time.Minute, 40*time.Minute), HeapMB: 12000}, jhb)
+	fmt.Printf("TLC model-binding validation (hook-level traces vs Coalescing.tla): ok=%v traces=%d not-explained=%d distinct=%d wall=%s %s\n", hres.OK, jhb.Len(), len(hmissing), hres.Distinct, hres.Wall.Round(time.Millisecond), hres.What)
+	e.Set("impl_traces_validated", int64(jhb.Len()))
+	e.Set("impl_drift_traces", int64(len(hmissing)))
+	e.Set("drift", len(hmissing) > 0 || !hres.OK)
+	if len(hmissing) > 0 {
+		fmt.Printf("DRIFT property=C09 %d hook-level traces are not behaviours of Coalescing.tla (model and code diverge; not a violation by itself), first: %v\n", len(hmissing), jhb.TraceStrings(hmissing[0]))
+	}
+	implSelfTest(e, jhb, hmissing)
 	selfTest(e)
+}
+
+// implSelfTest: the model binding is not vacuous - an explained hook-level trace of this run stays explained when
+// validated alone, and is no longer explained once the record of Run's select taking a token is removed from it.
+func implSelfTest(e *ev.Evidence, jhb *tv.Batch, missing []int) {
+	bad := map[int]bool{}
+	for _, m := range missing {
+		bad[m] = true
+	}
+	for i := 0; i < jhb.Len(); i++ {
+		if bad[i] {
+			continue
+		}
+		lines := jhb.Trace(i)
+		cut := -1
+		for k, l := range lines {
+			if strings.Contains(string(l), `"ev":"coal.run.input"`) {
+				cut = k
+				break
+			}
+		}
+		if cut < 0 {
+			continue
+		}
+		sb := &tv.Batch{}
+		sb.AppendTrace(lines)
+		mut := append([][]byte{}, lines[:cut]...)
+		mut = append(mut, lines[cut+1:]...)
+		sb.AppendTrace(mut)
+		ms, res := tv.ValidateDone(tlc.Opts{Dir: "Coalescing", Module: "TraceCoalImpl", Config: "TraceCoalImpl.cfg", Workers: 2, Timeout: 2 * time.Minute}, sb)
+		ok := res.OK && len(ms) == 1 && ms[0] == 1
+		e.Set("impl_binding_selftest", tv.M{"recorded_trace_accepted_and_without_its_first_coal.run.input_rejected": ok})
+		if !ok {
+			e.Inconclusive(fmt.Sprintf("model-binding self-test failed: not explained %v %s %s", ms, res.What, res.Tail(600)))
+		}
+		return
+	}
 }
 
 // modelCheck runs the TLC configurations of the implementation-shaped model.
